@@ -151,6 +151,7 @@ type Inner struct {
 	A   int
 	B   string
 	hid int
+	été int // unexported although its first BYTE is not a lower-case ASCII letter
 }
 
 // SetHid lets the driver make hid non-zero through the API as well.
@@ -246,6 +247,7 @@ type LInner struct {
 	A   int
 	B   string
 	hid int
+	été int
 }
 
 type LShape struct {
